@@ -6,6 +6,7 @@ import AriadneModel.Model.Triggers01
 import AriadneModel.Spec.Pyd
 import AriadneModel.Spec.Exec
 import AriadneModel.Spec.Validate
+import AriadneModel.Proofs.C01PlainDefs
 
 open Lean (Json)
 open Ariadne Ariadne.Gql Ariadne.ResultTypes
@@ -116,6 +117,14 @@ def handle (j : Json) : Except String Json := do
     match Validate.rootOf env.schema o with
     | some rt => pure (Json.arr (payloads.map fun p => Json.bool (Exec.respOK env.schema env.frags 1000 rt o.sel p)).toArray)
     | none => pure (Json.mkObj [("error", "no root type")])
+  | "plainOK" =>
+    -- which operations lie in the region of the proved plain-selection theorem (Properties/C01.lean)
+    let env ← decEnv j
+    let ops ← decOps j
+    pure (Json.arr (ops.map fun o =>
+      match o.name, Validate.rootOf env.schema o with
+      | some n, some rt => Json.bool (C01Plain.PlainOK env (ResultTypes.pascal n) rt o.sid o.sel {})
+      | _, _ => Json.bool false).toArray)
   | "validDoc" =>
     let env ← decEnv j
     let ops ← decOps j
